@@ -9,11 +9,8 @@ with plain datetime arithmetic in UTC.
 import sys, os, json, types, datetime as _dtm, zoneinfo as _zi, re as _re
 
 ID = 'C12'
-try:
-    import gen_C12
-    GEN = [('Gen/C12_Timeutils.v', gen_C12.generate)]
-except ImportError:           # translator not present yet
-    GEN = []
+import gen_C12
+GEN = [('Gen/C12_Timeutils.v', gen_C12.generate)]
 EQUIV_FILES = ['Proofs/C12_Equiv.v']
 EXTRACT = 'Extract/C12_x.v'
 
@@ -578,7 +575,7 @@ def fixed_cases():
 GENS = [(gen_fixture, 4), (gen_norm, 10), (gen_iso, 10), (gen_marsh, 10), (gen_leap, 5), (gen_unm, 8), (gen_clock, 12), (gen_cmp, 25), (gen_seq, 10), (gen_parse, 5), (gen_cal, 8), (gen_dsec, 4)]
 def gen_cases(rng, tier):
     yield from fixed_cases()
-    n = 5000 if tier == 'quick' else 150000
+    n = 5000 if tier == 'quick' else 500000
     fs = [g for g, w in GENS for _ in range(w)]
     for _ in range(n):
         yield rng.choice(fs)(rng)
